@@ -8,7 +8,8 @@ again gives the same decisions, (e) the postings `equity` emits per account agai
 name and the amount in the raw bytes of every printed posting line against `posting_blanks`.
 Oracle (property text, implementation only, Fractions through verif_rational): every printed posting line keeps the account name
 at least two blanks (or a tab) away from the amount; rows of J (date, aux date, state, code,
-payee, account, virtual, note, tags, exact amount, exact cost) equal the rows of `print J` re-read; print(print J) is
+payee, account, virtual, note, tags, exact amount, exact cost) equal the rows of `print J` re-read; the cost text of every printed
+posting denotes the cost as written (kind, (virtual) marking, exact number, commodity), and the price history (`prices`) is the same after the round trip; print(print J) is
 byte-identical to print J; `bal` of the re-read `equity J` equals `bal J` per account and commodity."""
 import re
 from fractions import Fraction as F
@@ -241,7 +242,7 @@ def decorate(rng, x, plain=False):
         elif r < 0.1:
             p.mark = x.state                                   # redundant mark
         p.note = rng.choice(PNOTES)
-        if p.cost is not None and rng.random() < 0.25:
+        if p.cost is not None and rng.random() < 0.25 and not getattr(x, 'keep_cost_marks', False):
             p.cvirt = True
         if p.lot is not None and p.cost is not None and rng.random() < 0.4:
             p.lotdate = rng.choice(LOT_DATES)
@@ -333,7 +334,48 @@ def gen_layout(rng, st):
     return XXact(ps)
 
 
+def gen_lot_cost(rng, st):
+    """a posting with BOTH a lot price {P} and a written cost: per-unit or total, equal to / above / below
+    lot price x quantity, a sale or a purchase, plain or (virtual) cost; finalize rewrites the posting's cost to the
+    lot's basis when the two differ, print must still show the cost as written"""
+    sym = rng.choice(['AAA', 'BBB', 'CCC'])
+    dec = rng.choice([0, 0, X.COMMS[sym][1]])
+    units = F(rng.randrange(1, 500), 10 ** dec) * rng.choice([1, 1, -1, -1, -1])
+    y = rng.choice(['$', '$', 'EUR'])
+    lotp = F(rng.randrange(100, 99999), 100)
+    delta = F(rng.choice([0, 0, 1, -1, 25, -40, 1000, -999, 12345]), rng.choice([1, 100, 100, 1000]))
+    if rng.random() < 0.5:
+        price = lotp + delta                                    # per unit
+        if price <= 0:
+            price = lotp
+        pd = 2 if price * 100 == int(price * 100) else 3
+        cost = ('u', X.Amt(price, pd, y))
+    else:
+        total = abs(lotp * units) + delta * rng.choice([1, 10])  # total
+        if total <= 0:
+            total = abs(lotp * units)
+        td = 2
+        while total * 10 ** td != int(total * 10 ** td):
+            td += 1
+        cost = ('t', X.Amt(total, td, y))
+    p = XPost(rng.choice(['Assets:Broker:X', 'Assets:Broker:Y']), 'R', X.Amt(units, dec, sym), cost, X.Amt(lotp, 2, y),
+              cvirt=rng.random() < 0.3)
+    if rng.random() < 0.3:
+        p.lotdate = rng.choice(['2019/01/01', '2018/12/31'])
+    if rng.random() < 0.2:
+        p.lottag = rng.choice(['lot note', 'L1'])
+    ps = [p, XPost(rng.choice(['Assets:Bank', 'Assets:Cash']), 'R', None)]
+    if rng.random() < 0.3:
+        a = X.Amt.rand(rng, y, 2)
+        ps.insert(rng.randrange(3), XPost('Income:Job', 'R', a))
+    x = XXact(ps)
+    x.keep_cost_marks = True
+    return x
+
+
 def gen_xact(rng, st):
+    if rng.random() < 0.1:
+        return relayout(rng, decorate(rng, gen_layout(rng, st)))
     r = rng.random()
     if r < 0.30:
         x = two_post(rng, st)
@@ -345,17 +387,16 @@ def gen_xact(rng, st):
         x = upgrade(X.gen_half_unit(rng))
     elif r < 0.74:
         x = upgrade(X.gen_two_commodity(rng))
-    elif r < 0.84:
+    elif r < 0.79:
         x = upgrade(X.gen_lot(rng))
-    elif r < 0.93:
+    elif r < 0.86:
+        x = gen_lot_cost(rng, st)
+    elif r < 0.935:
         x = gen_assign(rng, st)
     elif r < 0.94:
         x = gen_zero_cost(rng, st)
     else:
         x = upgrade(X.gen_balanced(rng, ncomm=3))
-    if rng.random() < 0.1:
-        x = gen_layout(rng, st)
-        return relayout(rng, decorate(rng, x))
     x = decorate(rng, x)
     if rng.random() < 0.3:
         x = relayout(rng, x)
@@ -569,11 +610,49 @@ def measure_line(line, p):
     return (True, len(mark) + len(name), blanks, alen, separated)
 
 
+def zero_amount_style_lost(xs, t1, t2):
+    """finding F8 seen through the commodity's style: a commodity whose only posting amount is a zero (printed as a bare 0)
+    and which otherwise occurs in costs and lot prices only (these teach no style) has no style in the printed journal, so the
+    second print places its symbol differently (`EUR280.26` for `280.26 EUR`).  True when every differing line names such a commodity."""
+    taught, zero = set(), set()
+    for x in xs:
+        for p in x.posts:
+            for a in (p.amt, p.assigned, p.computed):
+                if a is not None and a.sym:
+                    (zero if (a is p.amt and a.value == 0) else taught).add(a.sym)
+    lost = zero - taught
+    l1, l2 = t1.split('\n'), t2.split('\n')
+    return bool(lost) and len(l1) == len(l2) and all(a == b or any(c in a for c in lost) for a, b in zip(l1, l2))
+
+
 def differs_by_padding_only(t1, t2):
     """the two print outputs differ only by blanks at the end of posting lines (before a note or the line end): finding F50"""
     l1, l2 = t1.split('\n'), t2.split('\n')
     unpad = lambda l: re.sub(r' +(  ;.*)?$', lambda m: m.group(1) or '', l)
     return len(l1) == len(l2) and all(a == b or (a.startswith('    ') and unpad(a) == unpad(b)) for a, b in zip(l1, l2))
+
+
+def parse_prices(out):
+    """`prices` output -> sorted [(date, commodity, price commodity, Fraction, decimals shown)] or None"""
+    res = []
+    for l in out.decode('utf-8', 'replace').split('\n'):
+        if not l.strip():
+            continue
+        m = re.match(r'(\S+)\s+(\S+)\s+(.*\S)\s*$', l)
+        if not m:
+            return None
+        try:
+            a = parse_amount_text(m.group(3))
+        except ValueError:
+            return None
+        res.append((m.group(1), m.group(2), a[0], a[1], a[2]))
+    return sorted(res)
+
+
+def same_prices(h1, h2):
+    """equal dates and commodities, and the numbers agree to the digits both sides show (a price is a quotient and
+    is shown with as many digits as the operands happened to carry)"""
+    return len(h1) == len(h2) and all(a[:3] == b[:3] and abs(a[3] - b[3]) <= F(1, 10 ** min(a[4], b[4])) for a, b in zip(h1, h2))
 
 
 def parse_bal(out):
@@ -744,6 +823,33 @@ def run_one(ctx, res, j, xs, text, path, out_reg, model, layout_cases, idem_case
         res.disagreements.append(dict(name='C06/print-error', case=text, impl='print succeeds', model=mm[model_perr[0]][0]))
         return
     toks = tokenize_print(Ptext)
+    # ---- oracle 0b (cost details): the cost text of a printed posting denotes the cost AS WRITTEN - same kind of mark
+    # (a per-unit cost on a zero amount may only be shown as the total, which is then zero), same (virtual) marking,
+    # exactly the written number and commodity - whatever finalize made of the posting's cost (lot basis, gain/loss)
+    for i, x in enumerate(xs):
+        tl = toks.get(i)
+        if tl is None or len(tl) != len(x.posts):
+            continue
+        for k, (t, p) in enumerate(zip(tl, x.posts)):
+            shown = t.split('|')[5]
+            if p.cost is None or p.amt is None:
+                want = '-'
+            else:
+                kind, c = p.cost
+                val = c.value
+                if kind == 'u' and p.amt.value == 0:
+                    kind, val = 't', F(0)
+                want = '%s%s %s:%s/%s' % (kind, 'v' if p.cvirt else '', c.sym, val.numerator, val.denominator)
+            got = shown if shown == '-' else ':'.join(shown.split(':')[:-1])
+            if got != want:
+                res.count('print-cost-differs')
+                res.violations.append(dict(key='print-cost:written-cost-not-shown' + (':lot-priced-posting' if p.lot is not None else ''),
+                                           desc='x%d %s: the cost was written as %r, print shows %r' % (i, p.acct, want, got),
+                                           case=dict(journal=text, printed=Ptext, xact=i), observed=got, required=want))
+            elif p.cost is not None and p.lot is not None:
+                basis = abs(p.lot.value * p.amt.value)
+                given = abs(p.cost[1].value * p.amt.value) if p.cost[0] == 'u' else p.cost[1].value
+                res.count('lot+cost:%s%s:%s' % (p.cost[0], '-virtual' if p.cvirt else '', 'cost=basis' if given == basis else 'cost!=basis'))
     # ---- oracle 0 (journal syntax): in every printed posting line the account name is followed by nothing, by two
     # blanks or by a tab - with less the reader takes the amount for a part of the account name.  The same pass
     # collects the raw layout of the line for the correspondence with Model/Print.v sep_blanks.
@@ -811,7 +917,10 @@ def run_one(ctx, res, j, xs, text, path, out_reg, model, layout_cases, idem_case
             mod_same = all(mm.get((i, 'I'), ['SAME'])[0] == 'SAME' for i in range(len(xs)))
             # the bytes also depend on the padding after an amount print left out (finding F50): decided once the
             # layout model has run
-            idem_cases.append((text, P2 == P, mod_same, pad_lines, [(i, mm.get((i, 'I'))) for i in range(len(xs))]))
+            if P2 != P and zero_amount_style_lost(xs, Ptext, P2.decode('utf-8', 'replace')):
+                res.count('idempotence-skipped:style-of-zero-amount-commodity')      # commodity styles are not modelled (C04)
+            else:
+                idem_cases.append((text, P2 == P, mod_same, pad_lines, [(i, mm.get((i, 'I'))) for i in range(len(xs))]))
     # ---- oracle 1: the rows of J equal the rows of the re-read print
     nontrivial = False
     if not reread_ok:
@@ -853,10 +962,23 @@ def run_one(ctx, res, j, xs, text, path, out_reg, model, layout_cases, idem_case
                                                     'reread-rows:cost:zero-amount-commodity-lost' if any(r['amt'] and r['amt'][1] == 0 for r in a) else 'reread-rows:cost'),
                                                    desc='x%d %s: %s was %s, re-read %s' % (i, ra['acct'], fld, show_kq(va), show_kq(vb)),
                                                    case=dict(journal=text, printed=Ptext, xact=i), observed=show_kq(vb), required=show_kq(va)))
+        # ---- oracle 1b: the prices ledger records from the written costs are the same after the round trip
+        sp1, pr1, pe1 = lib.run_ledger(['-f', path, 'prices'] + NOW)
+        sp2, pr2, pe2 = lib.run_ledger(['-f', ppath, 'prices'] + NOW)
+        h1, h2 = parse_prices(pr1), parse_prices(pr2)
+        if sp1 == 0 and h1 is not None and (sp2 != 0 or h2 is None or not same_prices(h1, h2)):
+            zero = any(p.amt is not None and p.amt.value == 0 for x in xs for p in x.posts)
+            d = [(a, b) for a, b in zip(h1, h2 or []) if not same_prices([a], [b])][:3] or [(len(h1), len(h2 or []))]
+            res.violations.append(dict(key=('reread-rows:cost:zero-amount-commodity-lost' if zero else 'reread-prices'),
+                                       desc='the price history differs after print and re-read: %s' % d,
+                                       case=dict(journal=text, printed=Ptext), observed=str(d), required='the same prices'))
         # ---- oracle 2: print is idempotent, byte for byte
         if st3 != 0 or P2 != P:
             only_padding = st3 == 0 and differs_by_padding_only(Ptext, P2.decode('utf-8', 'replace'))
-            res.violations.append(dict(key='print-not-idempotent' + (':padding-after-omitted-amount' if only_padding else ''), desc='print(print J) differs from print J',
+            style_lost = st3 == 0 and zero_amount_style_lost(xs, Ptext, P2.decode('utf-8', 'replace'))
+            res.violations.append(dict(key='reread-rows:zero-amount-commodity-lost' if style_lost else
+                                       'print-not-idempotent' + (':padding-after-omitted-amount' if only_padding else ''),
+                                       desc='print(print J) differs from print J' + (' (the style of a commodity whose only posting amount is a zero is not learnt from the bare 0)' if style_lost else ''),
                                        case=dict(journal=text, printed=Ptext), observed=P2.decode('utf-8', 'replace')[:2000], required=Ptext[:2000]))
     if nontrivial:
         for i, x in enumerate(xs):
@@ -950,7 +1072,7 @@ def run(ctx, n_override=None):
     res.rule = ('accepted journals of 3-10 transactions: two-posting shapes around the elision (real, [balanced], (virtual) pairs, '
                 'different written precision, equal lots, first/second elided in the source, costs, implied rate, zero amounts), exactly '
                 'balanced multi-commodity transactions with @/@@/(@) costs and virtual postings, one elided amount, excess-precision per-unit '
-                'costs at the half-unit boundary, lot sales with {price} [date] (tag), balance assignments/assertions, `0 X @ price`; '
+                'costs at the half-unit boundary, lot sales with {price} [date] (tag), postings with both a lot price and a written cost (@ / @@ / (@) / (@@), equal to or different from lot price x quantity, sales and purchases), balance assignments/assertions, `0 X @ price`; '
                 'account names of 30..45 characters placed around the account column of print (column-3 .. column+0, the longest at the column) with amounts of 9..14 and more characters, so that every gap 0..3 between name and amount occurs; decorated with states on transactions and postings (also a posting mark that differs from the mark of its transaction), codes, auxiliary dates, notes, tags, key: value metadata and unusual '
                 'payee/account text; non-trivial = a transaction with at least one such feature in a journal whose printed text re-reads; '
                 'distinct by rendered transaction text')
@@ -1045,6 +1167,23 @@ def replay(ctx, obj):
                 print('rows differ:', diff)
                 res.violations.append(dict(key='replay-rows', desc='the re-read rows differ from the original: %s' % diff, case=case,
                                            observed=str(diff), required='equal rows'))
+            h1 = parse_prices(lib.run_ledger(['-f', path, 'prices'] + NOW)[1])
+            h2 = parse_prices(lib.run_ledger(['-f', ppath, 'prices'] + NOW)[1])
+            if h1 is not None and (h2 is None or not same_prices(h1, h2)):
+                print('prices differ:', h1, h2)
+                res.violations.append(dict(key='replay-prices', desc='the price history differs after print and re-read', case=case,
+                                           observed=str(h2), required=str(h1)))
+
+            def total_costs(t):
+                out = []
+                for ls in tokenize_print(re.sub(r'^(\d\S*) ', r'\1 ', t, flags=re.M)).values():
+                    out += [l.split('|')[5] for l in ls if l.split('|')[5].startswith('t')]
+                return sorted(':'.join(c.split(':')[:-1]) for c in out)
+            w, g = total_costs(case['journal']), total_costs(P.decode('utf-8', 'replace'))
+            if any(w.count(c) > g.count(c) for c in w):
+                print('written total costs', w, 'printed', g)
+                res.violations.append(dict(key='replay-cost', desc='a written total cost is not shown by print: written %s, printed %s' % (w, g),
+                                           case=case, observed=str(g), required=str(w)))
             st3, P2, err3 = lib.run_ledger(['-f', ppath, 'print'] + NOW)
             if P2 != P and not differs_by_padding_only(P.decode('utf-8', 'replace'), P2.decode('utf-8', 'replace')):
                 print('print(print J) != print J')
